@@ -426,8 +426,7 @@ def build_image(inp):
     return px.astype(dt)
 
 
-def check_image(ctx, res, image, seps, sep_arg, pctF, margin_arg, precise, sig_base, stats=True,
-                model_line_float=None):
+def check_image(ctx, res, image, seps, sep_arg, pctF, margin_arg, precise, sig_base, stats=True):
     """one (image, parameters) through code, model and oracle.  Appends violations to res.
     returns dict with a few facts (or None when skipped)."""
     from trackpy.find import grey_dilation, percentile_threshold
